@@ -577,10 +577,21 @@ def _errors_table(repo, sf_tree):
     cp = [s for s in ast.walk(rfi) if isinstance(s, ast.If) and src(s.test) in ('stage < 2', 'stage < 3')]
     _need(len(cp) == 2, "_refit_islands: stage < 2 / stage < 3 copies")
     copies = {src(s.test): sorted(src(x) for x in s.body) for s in cp}
-    _need(copies == {'stage < 2': ['ns.err_dec = s.err_dec', 'ns.err_ra = s.err_ra', 'ns.flags |= flags.FIXED2PSF'],
-                     'stage < 3': ['ns.err_a = s.err_a', 'ns.err_b = s.err_b', 'ns.err_pa = s.err_pa']},
-          f"_refit_islands: error copies {copies}")
-    return int(emval), mnames, guards, (none_nan, six_guard, int_guard, fallback)
+    plain = {'stage < 2': ['ns.err_dec = s.err_dec', 'ns.err_ra = s.err_ra', 'ns.flags |= flags.FIXED2PSF'],
+             'stage < 3': ['ns.err_a = s.err_a', 'ns.err_b = s.err_b', 'ns.err_pa = s.err_pa']}
+    guarded = {'stage < 2': ['ns.err_dec = _known_error(s.err_dec)', 'ns.err_ra = _known_error(s.err_ra)', 'ns.flags |= flags.FIXED2PSF'],
+               'stage < 3': ['ns.err_a = _known_error(s.err_a)', 'ns.err_b = _known_error(s.err_b)', 'ns.err_pa = _known_error(s.err_pa)']}
+    _need(copies in (plain, guarded), f"_refit_islands: error copies {copies}")
+    copy_guard = 'false'
+    if copies == guarded:
+        # _known_error(err): err when positive and finite, otherwise -1
+        ke = find_func(sf_tree, '_known_error')
+        kb = [s for s in ke.body if not (isinstance(s, ast.Expr) and isinstance(s.value, ast.Constant))]
+        _need([a.arg for a in ke.args.args] == ['err'] and len(kb) == 2 and isinstance(kb[0], ast.If) and not kb[0].orelse
+              and src(kb[0].test) == 'np.isfinite(err) and err > 0' and [src(x) for x in kb[0].body] == ['return err']
+              and src(kb[1]) == 'return -1', f"_known_error: expected `if np.isfinite(err) and err > 0: return err` / `return -1`, found {[src(x)[:60] for x in kb]}")
+        copy_guard = 'true'
+    return int(emval), mnames, guards, (none_nan, six_guard, int_guard, fallback, copy_guard)
 
 
 def _sexagesimal(repo):
@@ -625,7 +636,7 @@ def gen_catalog(repo):
     c_init, c_step, t0, f0, t1, f1, tmin, masks, tnf = _component_counter(sf)
     wrap_test, wrap_step, _, ncomp = _result_to_components(sf)
     fs_test, fs_step, pal = _shape_leaves(sf)
-    emval, mnames, guards, (none_nan, six_guard, int_guard, fallback) = _errors_table(repo, sf)
+    emval, mnames, guards, (none_nan, six_guard, int_guard, fallback, copy_guard) = _errors_table(repo, sf)
     sx = _sexagesimal(repo)
     fl = '\n'.join(f"Definition {n} : N := {v}%N." for n, v in consts)
     zl = lambda v: f"({v})" if v < 0 else str(v)  # noqa: E731
@@ -688,6 +699,9 @@ Definition six_guarded : bool := {six_guard}.
 Definition int_flux_guarded : bool := {int_guard}.
 (* value class covar_errors leaves in every varying stderr after a singular covariance matrix *)
 Definition singular_fallback_is_nan : bool := {'true' if fallback == 'CNan' else 'false'}.
+(* _refit_islands: the uncertainties priorized fitting does not fit (position: stage < 2, shape: stage < 3) are copied from
+   the input catalogue through _known_error (err when positive and finite, otherwise -1); false: copied as they are *)
+Definition copied_errors_guarded : bool := {copy_guard}.
 
 (* ---- angle_tools.dec2dms / dec2hms: cs = round(x * scale), then divmod chain ---- *)
 Definition dms_scale : Z := {sx['dec2dms'][0]}.
